@@ -1251,8 +1251,22 @@ def line_map(transformed: ast.AST, new_src: str) -> dict[int, int]:
 
 
 def normalise_source(src: str, external_names: set[str] | frozenset[str] = frozenset()) -> tuple[str | None, list[str], dict[int, int]]:
+    """The rewriting is repeated on its own result (at most three rounds): a record that escaped into a helper's parameter list no
+    longer escapes once the helper has been inlined, and is dissolved in the next round."""
     nz = Normaliser(src, external_names)
     new = nz.run()
     if new is None:
         return None, nz.log, {}
-    return new, nz.log, line_map(nz.tree, new)
+    log = list(nz.log)
+    lmap = line_map(nz.tree, new)
+    for _ in range(2):
+        nz2 = Normaliser(new, external_names)
+        nxt = nz2.run()
+        if nxt is None or nxt == new:
+            break
+        m2 = line_map(nz2.tree, nxt)
+        lmap = {k: lmap.get(v, v) for k, v in m2.items()} if m2 and lmap else {}
+        log += [x for x in nz2.log if not x.endswith("- kept")]
+        log = [x for x in log if not (x.endswith("- kept") and any(y.startswith("record " + x.split()[1] + " ") or x.split()[1] in y for y in nz2.log if "dissolved" in y))]
+        new = nxt
+    return new, log, lmap
